@@ -1,12 +1,10 @@
-/-! GENERATED by props/c05.py `mem_generated` from esl_mem.c of the working tree — do not edit. -/
+/-! Which `esl_mem_IsReal` the driver runs (hand-written since fix 8112354 landed; regenerated from the working tree while the repair was pending). -/
 namespace EaselModel.Buffer.Mem.MemConsts
 
-/-- `esl_mem_IsReal`'s scan loop ends in `else return FALSE` (true: garbage bytes are rejected, the repaired code) or steps over
-    every byte that is no digit, '.', 'e', 'E' or blank (false: the code as it is; known finding C05:mem:isreal-accepts-garbage) -/
+/-- an earlier, stricter proposal (`else return FALSE` in the scan loop): never landed (it refuses Pfam's "#=GF GA 25.00 25.00;") -/
 def isRealStrict : Bool := false
 
-/-- `esl_mem_IsReal` tests that the number starts right after the blanks and the sign (fix C05-mem-isreal-garbage, round 6; model
-    `Mem.memIsRealL`, MemRealStart.lean) -/
-def isRealStart : Bool := false
+/-- `esl_mem_IsReal` tests that the number starts right after the blanks and the sign (fix 8112354; model `Mem.memIsRealL`, MemRealStart.lean) -/
+def isRealStart : Bool := true
 
 end EaselModel.Buffer.Mem.MemConsts
